@@ -567,20 +567,21 @@ Definition ext_label : str := ext_prefix ++ [32; 98; 121; 58; 32].
 Definition astool_text (sideloaded : bool) (tool : str) : str :=
   if sideloaded then ext_label ++ tool else tool.
 
-(* SubRegion.from_biopython / Protocluster.from_biopython on the aStool qualifier:
-     tool.startswith("externally annotated") -> Sideloaded*.from_biopython(bio_feature):
+(* SubRegion.from_biopython / Protocluster.from_biopython on the aStool qualifier (called without a feature):
+     not feature and tool.startswith("externally annotated") -> Sideloaded*.from_biopython(bio_feature):
          tool = tool.split(": ", 1)[1]            (IndexError without ": ")
          leftovers["aStool"] = [tool]; feature = cls(..., tool, ...)
          super().from_biopython(bio_feature, feature=feature, leftovers=leftovers):
-             the same startswith test on the recovered name -> Sideloaded*.from_biopython(bio_feature)
-             again with the original qualifiers: unbounded recursion (RecursionError, a RuntimeError)
+             a feature is passed in, so the startswith test is not made again (repaired finding C10-F62:
+             it was, and a recovered name with that prefix recursed until RecursionError); the parent
+             reader only takes its own qualifiers
      otherwise the qualifier is the tool of an ordinary area.
    Result: (is sideloaded, tool name). *)
 Definition astool_decode (text : str) : res (bool * str) :=
   if starts_with ext_prefix text then
     match split_colon_space text with
     | None => Err E_Index
-    | Some (_, tool) => if starts_with ext_prefix tool then Err E_Runtime else Ok (true, tool)
+    | Some (_, tool) => Ok (true, tool)
     end
   else Ok (false, text).
 
